@@ -345,6 +345,9 @@ pub enum LogMutation {
 #[derive(Clone, Debug, PartialEq)]
 pub enum Op {
 	Commit(Vec<(u8, TxOp)>),
+	/// A transaction containing at least one invalid operation: must be refused without trace.
+	/// With `bg_err` a background error is stored first (every commit must then be refused).
+	BadCommit { tx: Vec<(u8, TxOp)>, bg_err: bool },
 	Step(Stage),
 	/// Drop the handle cleanly and reopen.
 	Restart,
@@ -361,7 +364,9 @@ pub enum Op {
 	LogFuzz { muts: Vec<LogMutation>, adopt: bool },
 	LockTree(u8, usize),
 	UnlockTree(u8, usize),
-	Admin(AdminOp),
+	/// Column administration on the closed database; with `true` the call is made on a copy of the
+	/// directory that still has unreplayed logs.
+	Admin(AdminOp, bool),
 }
 
 #[derive(Clone, Debug, PartialEq)]
@@ -473,6 +478,7 @@ impl Op {
 	pub fn json(&self) -> J {
 		match self {
 			Op::Commit(tx) => json!({"op": "commit", "tx": tx.iter().map(|(c, t)| json!([c, txop_json(t)])).collect::<Vec<_>>()}),
+			Op::BadCommit { tx, bg_err } => json!({"op": "badcommit", "bg_err": bg_err, "tx": tx.iter().map(|(c, t)| json!([c, txop_json(t)])).collect::<Vec<_>>()}),
 			Op::Step(s) => json!({"op": "step", "stage": s.name()}),
 			Op::Restart => json!({"op": "restart"}),
 			Op::Drain => json!({"op": "drain"}),
@@ -490,14 +496,14 @@ impl Op {
 				json!({"op": "logfuzz", "muts": muts.iter().map(mut_json).collect::<Vec<_>>(), "adopt": adopt}),
 			Op::LockTree(c, k) => json!({"op": "locktree", "col": c, "key": k}),
 			Op::UnlockTree(c, k) => json!({"op": "unlocktree", "col": c, "key": k}),
-			Op::Admin(a) => match a {
-				AdminOp::AddColumn(k) => json!({"op": "admin", "what": "add", "kind": k}),
-				AdminOp::DropLastColumn => json!({"op": "admin", "what": "droplast"}),
-				AdminOp::ResetColumn(c, k) => json!({"op": "admin", "what": "reset", "col": c, "kind": k}),
-				AdminOp::ClearColumn(c) => json!({"op": "admin", "what": "clear", "col": c}),
+			Op::Admin(a, pending) => match a {
+				AdminOp::AddColumn(k) => json!({"op": "admin", "what": "add", "kind": k, "pending": pending}),
+				AdminOp::DropLastColumn => json!({"op": "admin", "what": "droplast", "pending": pending}),
+				AdminOp::ResetColumn(c, k) => json!({"op": "admin", "what": "reset", "col": c, "kind": k, "pending": pending}),
+				AdminOp::ClearColumn(c) => json!({"op": "admin", "what": "clear", "col": c, "pending": pending}),
 				AdminOp::OpenMismatch { col, field } =>
-					json!({"op": "admin", "what": "mismatch", "col": col, "field": field}),
-				AdminOp::OpenWrongCount(d) => json!({"op": "admin", "what": "wrongcount", "d": d}),
+					json!({"op": "admin", "what": "mismatch", "col": col, "field": field, "pending": pending}),
+				AdminOp::OpenWrongCount(d) => json!({"op": "admin", "what": "wrongcount", "d": d, "pending": pending}),
 			},
 		}
 	}
@@ -512,6 +518,15 @@ impl Op {
 					.map(|e| (e[0].as_u64().unwrap() as u8, txop_from_json(&e[1])))
 					.collect(),
 			),
+			"badcommit" => Op::BadCommit {
+				tx: j["tx"]
+					.as_array()
+					.unwrap()
+					.iter()
+					.map(|e| (e[0].as_u64().unwrap() as u8, txop_from_json(&e[1])))
+					.collect(),
+				bg_err: j["bg_err"].as_bool().unwrap_or(false),
+			},
 			"step" => Op::Step(Stage::parse(j["stage"].as_str().unwrap())),
 			"restart" => Op::Restart,
 			"drain" => Op::Drain,
@@ -574,7 +589,7 @@ impl Op {
 					field: j["field"].as_u64().unwrap() as u8,
 				},
 				_ => AdminOp::OpenWrongCount(j["d"].as_i64().unwrap() as i8),
-			}),
+			}, j["pending"].as_bool().unwrap_or(false)),
 			x => panic!("op {x}"),
 		}
 	}
@@ -582,6 +597,7 @@ impl Op {
 	pub fn kind_name(&self) -> &'static str {
 		match self {
 			Op::Commit(_) => "commit",
+			Op::BadCommit { .. } => "badcommit",
 			Op::Step(s) => s.name(),
 			Op::Restart => "restart",
 			Op::Drain => "drain",
@@ -592,7 +608,7 @@ impl Op {
 			Op::LogFuzz { .. } => "logfuzz",
 			Op::LockTree(..) => "locktree",
 			Op::UnlockTree(..) => "unlocktree",
-			Op::Admin(_) => "admin",
+			Op::Admin(..) => "admin",
 		}
 	}
 }
